@@ -295,6 +295,10 @@ class _Scn(object):
                     kind = 'seeded_twice'
                 if kind == 'unseeded_function':
                     ops.append([kind, name, aseed, rnd.random() < 0.25])
+                elif kind == 'seeded_twice' and rnd.random() < 0.1:
+                    # seeds numpy cannot take directly (get_rng falls back to python's random.Random(seed)): twice-equal and
+                    # global-untouched must hold for them too; RandomState(seed) does not exist for them
+                    ops.append([kind, name, aseed, rnd.choice((2 ** 40 + 7, -5, 2 ** 32))])
                 else:
                     ops.append([kind, name, aseed, rnd.choice(SEEDS) if rnd.random() < 0.5 else rnd.randrange(2 ** 32)])
         return {'scn': self.ID, 'routine': 'history', 'ops': ops, 'seed': sub, 'policy': {'name': 'history'}, 'trace': None}
